@@ -58,7 +58,7 @@ def slim(case, rec):
 def run(ctx):
     po = C.proof_obligations(ctx.prop)
     fok, fout, _ = C.coq_make(["Findings/F4_kpcovr_score_blocks.vo"], timeout=600)
-    ncases = 500 if ctx.quick else 2500
+    ncases = 500 if ctx.quick else 4000
     cases, recs, infos, ests = [], [], [], []
     st = dict(kernel=collections.Counter(), regressor=collections.Counter(), center=collections.Counter(),
               mixing=collections.Counter(), skipped=collections.Counter(), score_sets=collections.Counter(),
